@@ -1171,6 +1171,254 @@ SEVENTH = [
 ]
 
 
+# ---------------------------------------------------------------------------------------------------------------------------
+# eighth list (fifth pass). Two classes.
+# (1) "the split of a listed entry lives in a parse helper" (extract-helper at another boundary / results bundled into a struct /
+#     ok flag vs error / single exit): the per-entry part of the loader loop is replaced, a helper is appended to helpers.go.
+SP_FIND = """		storeType, name, found := strings.Cut(trustStore, ":")
+		if !found {
+			return nil, truststore.TrustStoreError{Msg: fmt.Sprintf("error while loading the trust store, trust policy statement %q is missing separator in trust store value %q. The required format is <TrustStoreType>:<TrustStoreName>", policyName, trustStore)}
+		}
+		if trustStoreType != truststore.Type(storeType) {
+			continue
+		}
+
+		certs, err := x509TrustStore.GetCertificates(ctx, trustStoreType, name)
+		if err != nil {
+			return nil, err
+		}
+		certificates = append(certificates, certs...)
+		processedStoreSet.Add(trustStore)
+	}
+	return certificates, nil
+}
+"""
+SP_ERRMSG = 'truststore.TrustStoreError{Msg: fmt.Sprintf("error while loading the trust store, trust policy statement %q is missing separator in trust store value %q. The required format is <TrustStoreType>:<TrustStoreName>", policyName, trustStore)}'
+SP_TAIL = """	}
+	return certificates, nil
+}
+"""
+SP_LOAD = """			certs, err := x509TrustStore.GetCertificates(ctx, trustStoreType, %s)
+			if err != nil {
+				return nil, err
+			}
+			certificates = append(certificates, certs...)
+			processedStoreSet.Add(trustStore)
+"""
+# struct by value + error, positive nesting (the shape of the held-out refactoring)
+SP_STRUCT_BODY = """		ref, err := parseTrustStoreRef(policyName, trustStore)
+		if err != nil {
+			return nil, err
+		}
+		if ref.storeType == trustStoreType {
+""" + SP_LOAD % "ref.name" + "\t\t}\n" + SP_TAIL
+SP_STRUCT_HELPER = """
+type trustStoreRef struct {
+	storeType truststore.Type
+	name      string
+}
+
+func parseTrustStoreRef(policyName, trustStore string) (trustStoreRef, error) {
+	storeType, name, found := strings.Cut(trustStore, ":")
+	if !found {
+		return trustStoreRef{}, """ + SP_ERRMSG + """
+	}
+	return trustStoreRef{storeType: truststore.Type(storeType), name: name}, nil
+}
+"""
+# three results + error, guard clauses
+SP_THREE_BODY = """		listedType, listedName, err := splitTrustStore(policyName, trustStore)
+		if err != nil {
+			return nil, err
+		}
+		if trustStoreType != listedType {
+			continue
+		}
+""" + (SP_LOAD % "listedName").replace("\t\t\t", "\t\t") + SP_TAIL
+SP_THREE_HELPER = """
+func splitTrustStore(policyName, trustStore string) (truststore.Type, string, error) {
+	before, after, found := strings.Cut(trustStore, ":")
+	if !found {
+		return "", "", """ + SP_ERRMSG + """
+	}
+	return truststore.Type(before), after, nil
+}
+"""
+# ok flag instead of an error, the error built by the caller; the helper uses IndexByte + slicing
+SP_OK_BODY = """		listedType, listedName, ok := splitTrustStore(trustStore)
+		if !ok {
+			return nil, """ + SP_ERRMSG + """
+		}
+		if trustStoreType != truststore.Type(listedType) {
+			continue
+		}
+""" + (SP_LOAD % "listedName").replace("\t\t\t", "\t\t") + SP_TAIL
+SP_OK_HELPER = """
+func splitTrustStore(entry string) (string, string, bool) {
+	i := strings.IndexByte(entry, ':')
+	if i < 0 {
+		return "", "", false
+	}
+	return entry[:i], entry[i+1:], true
+}
+"""
+# struct by pointer + error
+SP_PTR_BODY = SP_STRUCT_BODY
+SP_PTR_HELPER = SP_STRUCT_HELPER.replace("(trustStoreRef, error)", "(*trustStoreRef, error)").replace("return trustStoreRef{}, ", "return nil, ").replace("return trustStoreRef{storeType:", "return &trustStoreRef{storeType:")
+# single exit with locals
+SP_ONE_EXIT_HELPER = """
+type trustStoreRef struct {
+	storeType truststore.Type
+	name      string
+}
+
+func parseTrustStoreRef(policyName, trustStore string) (trustStoreRef, error) {
+	var ref trustStoreRef
+	var err error
+	storeType, name, found := strings.Cut(trustStore, ":")
+	if found {
+		ref.storeType = truststore.Type(storeType)
+		ref.name = name
+	} else {
+		err = """ + SP_ERRMSG + """
+	}
+	return ref, err
+}
+"""
+# the helper itself delegates the cut to a second helper (two levels)
+SP_TWO_LEVEL_HELPER = SP_STRUCT_HELPER.replace('storeType, name, found := strings.Cut(trustStore, ":")\n\tif !found {', 'storeType, name, found := cutAtColon(trustStore)\n\tif !found {') + """
+func cutAtColon(s string) (string, string, bool) {
+	i := strings.Index(s, ":")
+	if i < 0 {
+		return "", "", false
+	}
+	return s[:i], s[i+1:], true
+}
+"""
+
+SP_REF_TYPE = """
+type trustStoreRef struct {
+	storeType truststore.Type
+	name      string
+}
+"""
+SP_CLOSURE = """		parse := func(entry string) (trustStoreRef, error) {
+			storeType, name, found := strings.Cut(entry, ":")
+			if !found {
+				return trustStoreRef{}, """ + SP_ERRMSG.replace("policyName, trustStore)", "policyName, entry)") + """
+			}
+			return trustStoreRef{storeType: truststore.Type(storeType), name: name}, nil
+		}
+"""
+
+def sp(body, helper):
+    return [(H, SP_FIND, body + helper)]
+
+def sp_must(s, a, b):
+    assert s.count(a) == 1, (a, s.count(a))
+    return s.replace(a, b)
+
+# (2) "several parameters bundled into a struct": the four statement fields travel to processSignature in one unexported struct.
+PB_CALL_OCI = "err = v.processSignature(ctx, signature, envelopeMediaType, trustPolicy.Name, trustPolicy.TrustedIdentities, trustPolicy.TrustStores, trustPolicy.SignatureVerification, pluginConfig, outcome)"
+PB_CALL_BLOB = "err = v.processSignature(ctx, signature, opts.SignatureMediaType, trustPolicy.Name, trustPolicy.TrustedIdentities, trustPolicy.TrustStores, trustPolicy.SignatureVerification, opts.PluginConfig, outcome)"
+PB_LIT = "policyStatement{name: trustPolicy.Name, trustedIdentities: trustPolicy.TrustedIdentities, trustStores: trustPolicy.TrustStores, signatureVerification: trustPolicy.SignatureVerification}"
+PB_SIG = "func (v *verifier) processSignature(ctx context.Context, sigBlob []byte, envelopeMediaType, policyName string, trustedIdentities, trustStores []string, signatureVerification trustpolicy.SignatureVerification, pluginConfig map[string]string, outcome *notation.VerificationOutcome) error {"
+PB_TYPE = """// policyStatement carries what signature processing needs of the applicable statement.
+type policyStatement struct {
+	name                  string
+	trustedIdentities     []string
+	trustStores           []string
+	signatureVerification trustpolicy.SignatureVerification
+}
+
+"""
+PB_SIG_NEW = "func (v *verifier) processSignature(ctx context.Context, sigBlob []byte, envelopeMediaType string, policy policyStatement, pluginConfig map[string]string, outcome *notation.VerificationOutcome) error {"
+
+def pb(oci=None, blob=None, sig=PB_SIG_NEW, typ=PB_TYPE, pre_oci="", pre_blob="", arg="%s", inside=""):
+    oci = oci or PB_LIT
+    blob = blob or PB_LIT
+    return [
+        (V, PB_CALL_OCI, pre_oci + "err = v.processSignature(ctx, signature, envelopeMediaType, " + (arg % oci) + ", pluginConfig, outcome)"),
+        (V, PB_CALL_BLOB, pre_blob + "err = v.processSignature(ctx, signature, opts.SignatureMediaType, " + (arg % blob) + ", opts.PluginConfig, outcome)"),
+        (V, PB_SIG, typ + sig + inside),
+        (V, "trustCerts, err := loadX509TrustStores(ctx, outcome.EnvelopeContent.SignerInfo.SignedAttributes.SigningScheme, policyName, trustStores, v.trustStore)",
+            "trustCerts, err := loadX509TrustStores(ctx, outcome.EnvelopeContent.SignerInfo.SignedAttributes.SigningScheme, policy.name, policy.trustStores, v.trustStore)"),
+        (V, "err = verifyX509TrustedIdentities(policyName, trustedIdentities, outcome.EnvelopeContent.SignerInfo.CertificateChain)",
+            "err = verifyX509TrustedIdentities(policy.name, policy.trustedIdentities, outcome.EnvelopeContent.SignerInfo.CertificateChain)"),
+        (V, "authenticTimestampResult := verifyAuthenticTimestamp(ctx, policyName, trustStores, signatureVerification, v.trustStore, v.revocationTimestampingValidator, outcome)",
+            "authenticTimestampResult := verifyAuthenticTimestamp(ctx, policy.name, policy.trustStores, policy.signatureVerification, v.trustStore, v.revocationTimestampingValidator, outcome)"),
+        (V, "response, err := executePlugin(ctx, installedPlugin, capabilitiesToVerify, outcome.EnvelopeContent, trustedIdentities, pluginConfig)",
+            "response, err := executePlugin(ctx, installedPlugin, capabilitiesToVerify, outcome.EnvelopeContent, policy.trustedIdentities, pluginConfig)"),
+    ]
+
+PB_FIELDS = "var applicable policyStatement\n\tapplicable.name = trustPolicy.Name\n\tapplicable.trustedIdentities = trustPolicy.TrustedIdentities\n\tapplicable.trustStores = trustPolicy.TrustStores\n\tapplicable.signatureVerification = trustPolicy.SignatureVerification\n\t"
+PB_OTHER = "v.ociTrustPolicyDoc.TrustPolicies[0]"
+
+EIGHTH = [
+ # ---- class 1: parse helper
+ dict(name='benign-split-helper-struct-and-error', expect='silent', edits=sp(SP_STRUCT_BODY, SP_STRUCT_HELPER)),
+ dict(name='benign-split-helper-three-results', expect='silent', edits=sp(SP_THREE_BODY, SP_THREE_HELPER)),
+ dict(name='benign-split-helper-ok-flag-indexbyte', expect='silent', edits=sp(SP_OK_BODY, SP_OK_HELPER)),
+ dict(name='benign-split-helper-struct-by-pointer', expect='silent', edits=sp(SP_PTR_BODY, SP_PTR_HELPER)),
+ dict(name='benign-split-helper-single-exit', expect='silent', edits=sp(SP_STRUCT_BODY, SP_ONE_EXIT_HELPER)),
+ dict(name='benign-split-helper-two-levels', expect='silent', edits=sp(SP_STRUCT_BODY, SP_TWO_LEVEL_HELPER)),
+ dict(name='benign-split-closure', expect='silent',
+      edits=sp(SP_STRUCT_BODY.replace("\t\tref, err := parseTrustStoreRef(policyName, trustStore)\n", SP_CLOSURE + "\t\tref, err := parse(trustStore)\n"), SP_REF_TYPE)),
+ dict(name='split-closure-cuts-captured-other-entry', expect='flagged(loader/)',
+      edits=sp(SP_STRUCT_BODY.replace("\t\tref, err := parseTrustStoreRef(policyName, trustStore)\n", SP_CLOSURE.replace('strings.Cut(entry, ":")', 'strings.Cut(trustStores[0], ":")') + "\t\tref, err := parse(trustStore)\n"), SP_REF_TYPE)),
+ # broken counterparts
+ dict(name='split-helper-error-ignored', expect='flagged(loader/)',
+      edits=sp(sp_must(SP_STRUCT_BODY, "\t\tref, err := parseTrustStoreRef(policyName, trustStore)\n\t\tif err != nil {\n\t\t\treturn nil, err\n\t\t}\n", "\t\tref, _ := parseTrustStoreRef(policyName, trustStore)\n"), SP_STRUCT_HELPER)),
+ dict(name='split-helper-no-separator-test', expect='flagged(loader/separator)',
+      edits=sp(SP_STRUCT_BODY, sp_must(SP_STRUCT_HELPER, "\tif !found {\n", "\tif !found && policyName == \"\" {\n"))),
+ dict(name='split-helper-name-is-whole-entry', expect='flagged(loader/name-argument)',
+      edits=sp(SP_STRUCT_BODY, sp_must(SP_STRUCT_HELPER, "name: name}, nil", 'name: storeType + ":" + name}, nil'))),
+ dict(name='split-helper-fields-swapped', expect='flagged(loader/name-argument)',
+      edits=sp(SP_STRUCT_BODY, sp_must(SP_STRUCT_HELPER, "trustStoreRef{storeType: truststore.Type(storeType), name: name}, nil", "trustStoreRef{storeType: truststore.Type(name), name: storeType}, nil"))),
+ dict(name='split-helper-type-filter-removed', expect='flagged(loader/type-filter)',
+      edits=sp(sp_must(SP_STRUCT_BODY, "\t\tif ref.storeType == trustStoreType {\n", "\t\tif ref.storeType != \"\" {\n"), SP_STRUCT_HELPER)),
+ dict(name='split-helper-type-filter-on-first-entry', expect='flagged(loader/type-filter)',
+      edits=sp(sp_must(SP_STRUCT_BODY, "\t\tif ref.storeType == trustStoreType {\n", "\t\tfirst, err := parseTrustStoreRef(policyName, trustStores[0])\n\t\tif err != nil {\n\t\t\treturn nil, err\n\t\t}\n\t\tif first.storeType == trustStoreType {\n"), SP_STRUCT_HELPER)),
+ dict(name='split-helper-given-foreign-entry', expect='flagged(loader/name-argument)',
+      edits=sp(sp_must(SP_STRUCT_BODY, "parseTrustStoreRef(policyName, trustStore)", 'parseTrustStoreRef(policyName, "ca:"+policyName)'), SP_STRUCT_HELPER)),
+ dict(name='split-helper-name-after-last-colon', expect='flagged(loader/name-argument)',
+      edits=sp(SP_OK_BODY, sp_must(SP_OK_HELPER, "entry[i+1:], true", "entry[strings.LastIndexByte(entry, ':')+1:], true"))),
+ dict(name='split-helper-ok-flag-always-true', expect='flagged(loader/separator)',
+      edits=sp(SP_OK_BODY, '\nfunc splitTrustStore(entry string) (string, string, bool) {\n\tbefore, after, found := strings.Cut(entry, ":")\n\treturn before, after, found || entry != ""\n}\n')),
+ dict(name='split-helper-ok-flag-true-without-separator', expect='flagged(loader/)',
+      edits=sp(SP_OK_BODY, sp_must(SP_OK_HELPER, '\tif i < 0 {\n\t\treturn "", "", false\n\t}\n', '\tif i < 0 {\n\t\treturn "", entry, true\n\t}\n'))),
+ dict(name='split-helper-ok-flag-not-tested', expect='flagged(loader/)',
+      edits=sp(sp_must(SP_OK_BODY, "\t\tif !ok {\n\t\t\treturn nil, " + SP_ERRMSG + "\n\t\t}\n", "\t\t_ = ok\n"), SP_OK_HELPER)),
+ dict(name='split-helper-pointer-name-rewritten', expect='flagged(loader/name-argument)',
+      edits=sp(sp_must(SP_PTR_BODY, "\t\tif ref.storeType == trustStoreType {\n", "\t\tif ref.name == \"\" {\n\t\t\tref.name = policyName\n\t\t}\n\t\tif ref.storeType == trustStoreType {\n"), SP_PTR_HELPER)),
+ dict(name='split-helper-single-exit-no-error-when-missing', expect='flagged(loader/)',
+      edits=sp(SP_STRUCT_BODY, sp_must(SP_ONE_EXIT_HELPER, "\t} else {\n\t\terr = " + SP_ERRMSG + "\n\t}\n", "\t} else {\n\t\tref.name = trustStore\n\t}\n"))),
+ dict(name='split-helper-two-levels-inner-flag-ignored', expect='flagged(loader/)',
+      edits=sp(SP_STRUCT_BODY, sp_must(SP_TWO_LEVEL_HELPER, "\tif !found {\n\t\treturn trustStoreRef{}, " + SP_ERRMSG + "\n\t}\n", "\t_ = found\n"))),
+ # ---- class 2: statement fields bundled into a struct
+ dict(name='benign-policy-bundle-literal', expect='silent', edits=pb()),
+ dict(name='benign-policy-bundle-by-pointer', expect='silent', edits=pb(arg="&%s", sig=PB_SIG_NEW.replace("policy policyStatement", "policy *policyStatement"))),
+ dict(name='benign-policy-bundle-field-by-field', expect='silent', edits=pb(oci="applicable", blob="applicable", pre_oci=PB_FIELDS, pre_blob=PB_FIELDS)),
+ dict(name='benign-policy-bundle-constructor', expect='silent',
+      edits=pb(oci="newPolicyStatement(trustPolicy.Name, trustPolicy.TrustedIdentities, trustPolicy.TrustStores, trustPolicy.SignatureVerification)",
+               blob="newPolicyStatement(trustPolicy.Name, trustPolicy.TrustedIdentities, trustPolicy.TrustStores, trustPolicy.SignatureVerification)",
+               typ=PB_TYPE + "func newPolicyStatement(name string, identities, stores []string, sv trustpolicy.SignatureVerification) policyStatement {\n\treturn policyStatement{name: name, trustedIdentities: identities, trustStores: stores, signatureVerification: sv}\n}\n\n")),
+ dict(name='policy-bundle-identities-of-other-statement', expect='flagged(scoping/one-statement)',
+      edits=pb(oci=PB_LIT.replace("trustedIdentities: trustPolicy.TrustedIdentities", "trustedIdentities: " + PB_OTHER + ".TrustedIdentities"))),
+ dict(name='policy-bundle-stores-of-other-statement', expect='flagged(scoping/)',
+      edits=pb(oci=PB_LIT.replace("trustStores: trustPolicy.TrustStores", "trustStores: " + PB_OTHER + ".TrustStores"))),
+ dict(name='policy-bundle-field-by-field-name-of-other-statement', expect='flagged(scoping/one-statement)',
+      edits=pb(oci="applicable", blob="applicable", pre_oci=PB_FIELDS.replace("applicable.name = trustPolicy.Name", "applicable.name = " + PB_OTHER + ".Name"), pre_blob=PB_FIELDS)),
+ dict(name='policy-bundle-identities-not-from-statement', expect='flagged(scoping/one-statement)',
+      edits=pb(blob=PB_LIT.replace("trustedIdentities: trustPolicy.TrustedIdentities", 'trustedIdentities: []string{"*"}'))),
+ dict(name='policy-bundle-stores-widened-in-callee', expect='flagged(scoping/)',
+      edits=pb(inside='\n\tpolicy.trustStores = append(policy.trustStores, "ca:default")')),
+ dict(name='policy-bundle-by-pointer-stores-replaced-by-helper', expect='flagged(scoping/)',
+      edits=pb(arg="&%s", sig=PB_SIG_NEW.replace("policy policyStatement", "policy *policyStatement"),
+               typ=PB_TYPE + "func widenPolicyStores(p *policyStatement) {\n\tp.trustStores = []string{\"ca:default\"}\n}\n\n", inside="\n\twidenPolicyStores(policy)")),
+]
+
+
 VARIANTS = [
  dict(name='type-filter-removed', file=H, expect='flagged(loader/type-filter)',
       find='\t\tif trustStoreType != truststore.Type(storeType) {\n\t\t\tcontinue\n\t\t}\n', replace='\t\t_ = storeType\n'),
@@ -1252,5 +1500,5 @@ VARIANTS = [
       replace='\t\tif err != nil {\n\t\t\treturn nil, fmt.Errorf("store %s: %w", name, err)\n\t\t}\n\t\tcertificates = append(certificates, certs...)'),
 
  # ---- second pass: shapes accepted by class (extra_c03.go) -------------------------------------------------------------
-] + SECOND_PASS + THIRD + FOURTH + FIFTH + SIXTH + SEVENTH
+] + SECOND_PASS + THIRD + FOURTH + FIFTH + SIXTH + SEVENTH + EIGHTH
 
